@@ -312,6 +312,13 @@ def tasks(tier, seed):
                     for ga in (False, True):
                         T.append(Task('pomdp_run_on/%s/%s/cap%d/state-%s/ag-%s' % (sk.name, kind, cap, 'given' if gs else 'sampled', 'given' if ga else 'default'),
                                       h_pomdp_run_on, (sk, kind, cap, gs, ga, seed), tier='B', max_paths=4000))
+    for given in (True, False):
+        T.append(Task('U/run_on/abstract-mdp-and-policy/%s' % ('start-given' if given else 'start-sampled'), h_run_on_U, (given,), tier='U',
+                      note='uninterpreted MDP / policy, symbolic atoms, symbolic step cap, loop cut: unbounded'))
+    for gs in (True, False):
+        for ga in (True, False):
+            T.append(Task('U/pomdp_run_on/abstract/%s/%s' % ('state-given' if gs else 'state-sampled', 'ag-given' if ga else 'ag-default'), h_pomdp_run_on_U, (gs, ga), tier='U',
+                          note='uninterpreted POMDP / policy, symbolic atoms, symbolic step cap, loop cut: unbounded'))
     T.append(Task('rt/deterministic-equals-exact', rt_deterministic, (seed, 60 if tier == 'quick' else 500), tier='R', kind='rt'))
     return T
 
@@ -324,3 +331,215 @@ MANIFEST_ENTRY = dict(
     note='Bounded: skeleton families, step caps <=3/4, simulation counts <=2 (tier B); sampling laws not decided.',
 )
 END_MANIFEST_ENTRY = True
+
+
+# ---------------------------------------------------------------------------------------------------
+# tier U: Policy.run_on for an ABSTRACT MDP and policy, unbounded number of steps (loop 0 cut by an inductive invariant)
+# ---------------------------------------------------------------------------------------------------
+def h_run_on_U(init_given):
+    """MDP and policy are uninterpreted: Abs(s), Supp(s,a,ns) [positive transition probability], Rw(s,a,ns), Pi(s,a) [positive policy probability], Init(s);
+    states/actions are atoms with symbolic identity; max_steps is a symbolic integer >= 0.  Invariant (ghost k = completed iterations, the trajectory is
+    abstracted as `prefix ++ [last step]`, the prefix is ghost): k = 0 and s is the start state, or the last step is a valid step numbered k-1 that ends in s.
+    Every appended step is shown valid and chained, the loop stops exactly at the first absorbing state or at the cap; validity of ALL steps follows by induction."""
+    import z3
+    from symrun.absx import Atom, fresh_atom, Opaque
+    from symrun.cut import cut, CutSpec
+    I, B, Rl = z3.IntSort(), z3.BoolSort(), z3.RealSort()
+    Abs, Supp, Rw, Pi, Init = (z3.Function('Abs', I, B), z3.Function('Supp', I, I, I, B), z3.Function('Rw', I, I, I, Rl), z3.Function('Pi', I, I, B), z3.Function('Init', I, B))
+    N = S.integer('max_steps', 0, None)
+    uses = []
+
+    class Sampler:
+        def __init__(self, pred, base):
+            self.pred, self.base = pred, base
+
+        def sample(self, *, rng=None, k=1):
+            if rng is not the_rng:
+                uses.append('sample without the supplied generator')
+            x = fresh_atom(self.base)
+            S.assume(S.SymBool(self.pred(x.e)))
+            return x
+
+    class MDP:
+        discount_rate = 1.0
+        def is_absorbing(self, s): return S.SymBool(Abs(s.e))
+        def next_state_dist(self, s, a): return Sampler(lambda n: Supp(s.e, a.e, n), 'ns')
+        def reward(self, s, a, ns): return S.SymReal(Rw(s.e, a.e, ns.e))
+        def initial_state_dist(self): return Sampler(lambda n: Init(n), 's0')
+
+    class Pol(pol.Policy):
+        def action_dist(self, s): return Sampler(lambda a: Pi(s.e, a), 'a')
+    the_rng = object()
+    start = fresh_atom('start') if init_given else None
+    ghost = {}
+    state = {'phase': 'head'}
+
+    def valid(st, number):
+        s_, a_, n_ = st['state'], st['action'], st['next_state']
+        return S.And([S.eq(st['timestep'], number), S.Not(S.SymBool(Abs(s_.e))), S.SymBool(Pi(s_.e, a_.e)), S.SymBool(Supp(s_.e, a_.e, n_.e)),
+                      S.eq(st['reward'], S.SymReal(Rw(s_.e, a_.e, n_.e)))])
+
+    def inv(L):
+        traj, s = L['traj'], L['s']
+        if state['phase'] == 'back':
+            k = ghost['k']
+            return S.And([S.truth(len(traj) == ghost['len'] + 1), valid(traj[-1], k), S.SymBool(traj[-1]['state'].e == ghost['s_before'].e),
+                          S.SymBool(traj[-1]['next_state'].e == s.e)])
+        if 'k' not in ghost:      # initial entry
+            return S.And([S.truth(traj == []), S.truth(s is L['initial_state'])])
+        k = ghost['k']
+        if ghost['empty']:
+            return S.And([S.eq(k, 0), S.truth(traj == []), S.truth(s is L['initial_state'])])
+        return S.And([S.le(1, k), S.truth(len(traj) == 1), valid(traj[0], k - 1), S.SymBool(traj[0]['next_state'].e == s.e)])
+
+    def havoc(L):
+        k = S.integer('ghost_k', 0, None)
+        ghost['k'] = k
+        ghost['empty'] = bool(k == 0)        # forks: no step yet / at least one step
+        if ghost['empty']:
+            return dict(traj=[], s=L['initial_state'], t=None, a=None, ns=None, r=None)
+        sp, ap, s_ = fresh_atom('prev_s'), fresh_atom('prev_a'), fresh_atom('cur_s')
+        last = pol.Step(timestep=k - 1, state=sp, action=ap, next_state=s_, reward=S.SymReal(Rw(sp.e, ap.e, s_.e)))
+        return dict(traj=[last], s=s_, t=k - 1, a=None, ns=None, r=None)
+
+    def element(L, it):
+        S.assume(S.lt(ghost['k'], N))
+        ghost['len'] = len(L['traj'])
+        ghost['s_before'] = L['s']
+        state['phase'] = 'back'
+        return ghost['k']
+    spec = CutSpec(inv=inv, havoc=havoc, element=element, exhausted=lambda L: S.eq(ghost['k'], N))
+    import os
+    from symrun.driver import ROOT
+    f, text, info = cut(pol.Policy.run_on, {0: spec}, dump_dir=os.path.join(ROOT, 'evidence', 'extracted'))
+    mdp_, policy = MDP(), Pol()
+    res = f(policy, mdp_, initial_state=start, max_steps=N, rng=the_rng)
+    steps = res.steps
+    final = steps[-1]
+    ok = [S.truth(set(final.keys()) == {'state'})]
+    if state['phase'] == 'back':
+        # left by `break` inside the arbitrary iteration: the state it started from is absorbing, nothing was appended
+        ok.append(S.truth(len(steps) == ghost['len'] + 1))
+        ok.append(S.SymBool(Abs(final['state'].e)))
+        ok.append(S.SymBool(final['state'].e == ghost['s_before'].e))
+    else:
+        # the cap was reached: k == max_steps
+        ok.append(S.eq(ghost['k'], N))
+    if len(steps) >= 2:
+        ok.append(S.SymBool(steps[-2]['next_state'].e == final['state'].e))     # chained to the final bare step
+    else:
+        ok.append(S.truth(final['state'] is (start if init_given else final['state'])))
+        if not init_given:
+            ok.append(S.SymBool(Init(final['state'].e)))
+    S.check('U:run_on:stops-exactly-at-the-first-absorbing-state-or-at-the-cap;final-bare-step-chained', S.And(ok))
+    S.check('U:run_on:every-draw-uses-the-supplied-generator', S.truth(not uses), detail=repr(uses))
+
+
+SENTINELS = [
+    Sentinel('run_on-does-not-stop-at-absorbing-states', 'msdm.core.mdp.policy', "            if mdp.is_absorbing(s):\n                break\n            a = self.action_dist(s).sample(rng=rng)",
+             "            if False:\n                break\n            a = self.action_dist(s).sample(rng=rng)", ['U/run_on/abstract-mdp-and-policy/start-given']),
+    Sentinel('run_on-misnumbers-steps', 'msdm.core.mdp.policy', "                timestep=t,\n                state=s,", "                timestep=t + 1,\n                state=s,",
+             ['U/run_on/abstract-mdp-and-policy/start-given']),
+    Sentinel('run_on-does-not-advance-the-state', 'msdm.core.mdp.policy', "                reward=r\n            ))\n            s = ns\n        traj.append(Step(\n            state=s,",
+             "                reward=r\n            ))\n            s = s\n        traj.append(Step(\n            state=s,", ['U/run_on/abstract-mdp-and-policy/start-sampled']),
+    Sentinel('run_on-action-sampled-from-the-global-generator', 'msdm.core.mdp.policy', "            a = self.action_dist(s).sample(rng=rng)\n            ns = mdp.next_state_dist(s, a).sample(rng=rng)\n            r = mdp.reward(s, a, ns)\n            traj.append(Step(",
+             "            a = self.action_dist(s).sample()\n            ns = mdp.next_state_dist(s, a).sample(rng=rng)\n            r = mdp.reward(s, a, ns)\n            traj.append(Step(",
+             ['U/run_on/abstract-mdp-and-policy/start-given']),
+]
+
+
+def h_pomdp_run_on_U(state_given, ag_given):
+    """POMDPPolicy.run_on for an abstract POMDP / policy with a symbolic step cap (loop 0 cut): every appended step is a real transition with a positive-probability
+    observation, the model's reward, the policy's own agent-state update, chained; stops at the first absorbing state or at the cap."""
+    import z3, os
+    from symrun.absx import Atom, fresh_atom
+    from symrun.cut import cut, CutSpec
+    from symrun.driver import ROOT
+    I, B, Rl = z3.IntSort(), z3.BoolSort(), z3.RealSort()
+    Abs, Supp, Rw, Init = z3.Function('Abs', I, B), z3.Function('Supp', I, I, I, B), z3.Function('Rw', I, I, I, Rl), z3.Function('Init', I, B)
+    Obs, Pi, Nx, Ag0 = z3.Function('Obs', I, I, I, B), z3.Function('PiAg', I, I, B), z3.Function('NextAg', I, I, I, I), z3.Int('Ag0')
+    N = S.integer('max_steps', 0, None)
+    uses = []
+    the_rng = object()
+
+    class Sampler:
+        def __init__(self, pred, base):
+            self.pred, self.base = pred, base
+
+        def sample(self, *, rng=None, k=1):
+            if rng is not the_rng:
+                uses.append('%s sampled without the supplied generator' % self.base)
+            x = fresh_atom(self.base)
+            S.assume(S.SymBool(self.pred(x.e)))
+            return x
+
+    class POMDP:
+        def is_absorbing(self, s): return S.SymBool(Abs(s.e))
+        def next_state_dist(self, s, a): return Sampler(lambda n: Supp(s.e, a.e, n), 'ns')
+        def reward(self, s, a, ns): return S.SymReal(Rw(s.e, a.e, ns.e))
+        def initial_state_dist(self): return Sampler(lambda n: Init(n), 's0')
+        def observation_dist(self, a, ns): return Sampler(lambda o: Obs(a.e, ns.e, o), 'obs')
+
+    class Pol(ppol.POMDPPolicy):
+        def initial_agentstate(self): return Atom(Ag0)
+        def action_dist(self, ag): return Sampler(lambda a: Pi(ag.e, a), 'a')
+        def next_agentstate(self, ag, a, o): return Atom(Nx(ag.e, a.e, o.e))
+    start = fresh_atom('start') if state_given else None
+    ag_start = fresh_atom('ag_start') if ag_given else None
+    ghost = {}
+    state = {'phase': 'head'}
+
+    def valid(st):
+        s_, ag_, a_, n_, r_, o_, nag_ = st
+        return S.And([S.Not(S.SymBool(Abs(s_.e))), S.SymBool(Pi(ag_.e, a_.e)), S.SymBool(Supp(s_.e, a_.e, n_.e)), S.eq(r_, S.SymReal(Rw(s_.e, a_.e, n_.e))),
+                      S.SymBool(Obs(a_.e, n_.e, o_.e)), S.SymBool(nag_.e == Nx(ag_.e, a_.e, o_.e))])
+
+    def inv(L):
+        traj, s, ag = L['traj'], L['s'], L['ag']
+        if state['phase'] == 'back':
+            last = traj[-1]
+            return S.And([S.truth(len(traj) == ghost['len'] + 1), valid(last), S.SymBool(last.state.e == ghost['s_before'].e), S.SymBool(last.agentstate.e == ghost['ag_before'].e),
+                          S.SymBool(last.nextstate.e == s.e), S.SymBool(last.nextagentstate.e == ag.e)])
+        if 'k' not in ghost:
+            return S.And([S.truth(traj == []), S.truth(s is L['initial_state'] and ag is L['initial_agentstate'])])
+        if ghost['empty']:
+            return S.And([S.eq(ghost['k'], 0), S.truth(traj == [] and s is L['initial_state'] and ag is L['initial_agentstate'])])
+        return S.And([S.le(1, ghost['k']), S.truth(len(traj) == 1), valid(traj[0]), S.SymBool(traj[0].nextstate.e == s.e), S.SymBool(traj[0].nextagentstate.e == ag.e)])
+
+    def havoc(L):
+        k = S.integer('ghost_k', 0, None)
+        ghost['k'] = k
+        ghost['empty'] = bool(k == 0)
+        if ghost['empty']:
+            return dict(traj=[], s=L['initial_state'], ag=L['initial_agentstate'], t=None, a=None, ns=None, r=None, o=None, nag=None)
+        sp, agp, ap, s_, o_ = fresh_atom('prev_s'), fresh_atom('prev_ag'), fresh_atom('prev_a'), fresh_atom('cur_s'), fresh_atom('prev_o')
+        nag_ = Atom(Nx(agp.e, ap.e, o_.e))
+        last = ppol.Step(sp, agp, ap, s_, S.SymReal(Rw(sp.e, ap.e, s_.e)), o_, nag_)
+        return dict(traj=[last], s=s_, ag=nag_, t=k - 1, a=None, ns=None, r=None, o=None, nag=None)
+
+    def element(L, it):
+        S.assume(S.lt(ghost['k'], N))
+        ghost['len'] = len(L['traj'])
+        ghost['s_before'], ghost['ag_before'] = L['s'], L['ag']
+        state['phase'] = 'back'
+        return ghost['k']
+    spec = CutSpec(inv=inv, havoc=havoc, element=element, exhausted=lambda L: S.eq(ghost['k'], N))
+    f, text, info = cut(ppol.POMDPPolicy.run_on, {0: spec}, dump_dir=os.path.join(ROOT, 'evidence', 'extracted'))
+    policy = Pol()
+    traj = f(policy, POMDP(), initial_state=start, initial_agentstate=ag_start, max_steps=N, rng=the_rng)
+    final = traj[-1]
+    ok = [S.truth(final.action is None and final.nextstate is None and final.reward is None and final.observation is None and final.nextagentstate is None)]
+    if state['phase'] == 'back':
+        ok += [S.truth(len(traj) == ghost['len'] + 1), S.SymBool(Abs(final.state.e)), S.SymBool(final.state.e == ghost['s_before'].e), S.SymBool(final.agentstate.e == ghost['ag_before'].e)]
+    else:
+        ok.append(S.eq(ghost['k'], N))
+    if len(traj) >= 2:
+        ok += [S.SymBool(traj[-2].nextstate.e == final.state.e), S.SymBool(traj[-2].nextagentstate.e == final.agentstate.e)]
+    else:
+        if state_given:
+            ok.append(S.truth(final.state is start))
+        else:
+            ok.append(S.SymBool(Init(final.state.e)))
+        ok.append(S.truth(final.agentstate is ag_start) if ag_given else S.SymBool(final.agentstate.e == Ag0))
+    S.check('U:POMDPPolicy.run_on:starts-as-told,stops-exactly-at-the-first-absorbing-state-or-at-the-cap;final-step-chained', S.And(ok))
+    S.check('U:POMDPPolicy.run_on:every-draw-uses-the-supplied-generator', S.truth(not uses), detail=repr(uses))
